@@ -140,3 +140,31 @@ func VerifC15Merge() {
 	}
 	nd.Cover("merged")
 }
+
+// C15 on documents whose shapes conflict: the last loader still wins.  Both cases are decided by
+// spf13/viper's merge and lookup, not by go-kid/ioc's own code (listed finding classes).
+func VerifC15Conflicts() {
+	c := NewConfigure()
+	c.SetBinder(binder.NewViperBinder("yaml"))
+	switch nd.Choose(3) {
+	case 0:
+		// an earlier loader supplies a map under a key, a later one a scalar
+		c.AddLoaders(loader.NewRawLoader([]byte("a:\n  b: one\nk: v\n")), loader.NewRawLoader([]byte("a: five\n")))
+		nd.Assert(c.Initialize() == nil, "C15: loading succeeds")
+		nd.Known("C15/scalar-does-not-replace-map", true)
+		nd.Assert(c.Get("a") == any("five"), "C15: for a key supplied by several loaders the last one wins, also when the shapes differ")
+	case 1:
+		// an earlier loader supplies a flat dotted key, a later one the same path as a nested key
+		c.AddLoaders(loader.NewRawLoader([]byte("a.b: one\nk: v\n")), loader.NewRawLoader([]byte("a:\n  b: two\n")))
+		nd.Assert(c.Initialize() == nil, "C15: loading succeeds")
+		nd.Known("C15/dotted-key-shadows-nested", true)
+		nd.Assert(c.Get("a.b") == any("two"), "C15: for a path supplied by several loaders the last one wins, however the path is spelled")
+	default:
+		// control: a later map over an earlier scalar does replace it
+		c.AddLoaders(loader.NewRawLoader([]byte("a: five\nk: v\n")), loader.NewRawLoader([]byte("a:\n  b: one\n")))
+		nd.Assert(c.Initialize() == nil, "C15: loading succeeds")
+		nd.Assert(c.Get("a.b") == any("one"), "C15: for a key supplied by several loaders the last one wins, also when the shapes differ")
+		nd.Cover("later map replaces earlier scalar")
+	}
+	nd.Assert(c.Get("k") == any("v"), "C15: keys supplied by only one loader stay visible")
+}
